@@ -117,6 +117,13 @@ def build(run):
     for key in ('Counter._setmod', 'Counter._event_inc', 'Counter._event_dec', 'Counter._event_put', 'Counter._event_reset'):
         run.verify(key, cls='Counter')
     run.verify('Counter.__init__', cls='Counter', calls={'super().__init__': _super_init})
+    # 'every event returns the updated output': a Counter is persistent-capable, its event() is AddonPersistence.event, which must hand the
+    # handler's result through (contract shared with C06; SBlock.event itself: C11/C09)
+    from specs import c06
+    run.verify('AddonPersistence.event', cls='Counter', hooks=c06.HD, ghost={'items_after_handler': None}, calls={'super().event': c06.super_event})
+    mro_event = next(k for k in Counter.__mro__ if 'event' in vars(k))
+    run.scan('counter_event_entry_is_the_persistence_wrapper', mro_event.__qualname__ == 'AddonPersistence' and mro_event.__module__ == 'edzed.addons',
+             f'Counter.event resolves to {mro_event.__module__}.{mro_event.__qualname__}.event (the verified wrapper around SBlock.event)')
 
     # ---- derived lemmas (from the contracts only) -------------------------------------------------------
     v, m, p = Const('v', Val), Const('m', Val), Const('p', Val)
